@@ -9,6 +9,7 @@ CHECK = dict(
         "Go net/http client and server, renameio and the kernel's rename(2) are trusted to behave as on this machine's file system",
         "staleness is 1 ns so that every refresh downloads again; HTTP timeout 150 ms; a deadline error that the harness did not script (machine stall) only excuses the progress clauses, never the 'keeps the previous version' clauses",
         "the index is trusted not to name a list after another cache file (a filterKey such as 'filters.json' is outside the domain)",
+        "cmd unit: source URL, cache file, staleness, HTTP timeout and maximum size are read from the unexported refreshable parts of the built objects (vpeek); the refresh workers' own interval and context timeout are created only after a successful initial refresh and are not covered",
     ],
     units=[
         dict(name="filterstorage", dir=D, src="C13/filterstorage", runs=[
@@ -17,6 +18,9 @@ CHECK = dict(
                  shards_quick=3, shards_thorough=8, timeout_quick=300, timeout_thorough=1500),
             dict(name="crash", run="^TestVerifC13CrashPoints$", quick=40, thorough=600,
                  shards_quick=1, shards_thorough=4, timeout_quick=300, timeout_thorough=1500),
+        ]),
+        dict(name="cmd", dir="internal/cmd", src="C13/cmd", runs=[
+            dict(name="filters-refresh-config", run="^TestVerifC13CmdFilters$", quick=300, thorough=12000, shards_quick=2, shards_thorough=6),
         ]),
     ],
 )
